@@ -1,0 +1,8 @@
+//go:build !verif
+// +build !verif
+
+package raft
+
+// verifPoint marks a point of interest for the verification harness
+// (build tag verif). Without the tag it compiles to nothing.
+func verifPoint(name string) {}
